@@ -43,6 +43,8 @@ def run(ctx):
     # graphs with self-loops: a tadpole removed LAST still lowers the loop number
     ss += S.generate(ctx, 5 if ctx.quick else 25, 10 if ctx.quick else 30, max_e=5, max_loops=3, routings_per_graph=1, kinds=("uniform",),
                      names=["tadpole", "tadpole_pair", "triangle_tadpole", "sunrise_tadpole"])
+    ss += S.generate(ctx, 0, 3, routings_per_graph=1, kinds=("uniform",), special=("repeated_weights", "weights_equal_dod") * (3 if ctx.quick else 10))
+    ss += S.samples_for_cases(ctx, S.big_dimension_cases(ctx.rng), 3)
     rng = ctx.rng
     # rare sectors: push edge-choice coordinates to the ends of [0,1)
     for s in list(ss[:: 3]):
@@ -72,6 +74,8 @@ def run(ctx):
 def evaluate(ctx, ss):
     from mpmath import mp, mpf
     S.run(ss)
+    # "jacobian / normalisation": the normalisation is the true one, not merely whatever the table stores
+    SC.normalisation_oracle(ctx, ss)
     SC.corr_perm(ctx, ss)
     for s in ss:
         a, c, r = s["impl"], s["case"], s["routing"]
